@@ -700,6 +700,23 @@ func (loader *Loader) resolveHeaderRef(doc *T, component *HeaderRef, documentPat
 			return err
 		}
 	}
+	// a header may be defined by "content" instead of "schema"
+	for _, name := range componentNames(value.Content) {
+		contentType := value.Content[name]
+		if contentType == nil {
+			continue
+		}
+		for _, name := range componentNames(contentType.Examples) {
+			if err := loader.resolveExampleRef(doc, contentType.Examples[name], documentPath); err != nil {
+				return err
+			}
+		}
+		if schema := contentType.Schema; schema != nil {
+			if err := loader.resolveSchemaRef(doc, schema, documentPath, []string{}); err != nil {
+				return err
+			}
+		}
+	}
 	if schema := value.Schema; schema != nil {
 		if err := loader.resolveSchemaRef(doc, schema, documentPath, []string{}); err != nil {
 			return err
@@ -770,6 +787,14 @@ func (loader *Loader) resolveParameterRef(doc *T, component *ParameterRef, docum
 	}
 	for _, name := range componentNames(value.Content) {
 		contentType := value.Content[name]
+		if contentType == nil {
+			continue
+		}
+		for _, name := range componentNames(contentType.Examples) {
+			if err := loader.resolveExampleRef(doc, contentType.Examples[name], documentPath); err != nil {
+				return err
+			}
+		}
 		if schema := contentType.Schema; schema != nil {
 			if err := loader.resolveSchemaRef(doc, schema, documentPath, []string{}); err != nil {
 				return err
